@@ -630,3 +630,45 @@ def serde_agreement(ctx, rule, save_q, load_q, table, ctor_names, positional=Non
             problems.append(f"lossy transformation on the {'writer' if lw else 'reader'} side: {lw or lr}")
         ctx.check(rule, site, not problems, f"`{name}` <- {kind} `{key}` <- `{want}`", "; ".join(problems))
     return W, wiring
+
+
+def binary_search_preconditions(ctx, rule, modules):
+    """necessary condition of every membership / position lookup by binary search: np.searchsorted(A, v) is only meaningful when A is
+    sorted. In the given modules A must be ordered by this very function (np.sort / np.unique / sorted / A[np.argsort(A)]), or a `sorter=`
+    permutation must be passed; a haystack taken as it comes (stored ids, accumulated pair keys, chunk contents) is reported.
+    Returns the number of call sites examined."""
+    from engine.astutil import single_defs, inline, calls, call_name, kwargs, U
+    n = 0
+    for q, f in sorted(ctx.R.funcs.items()):
+        if f.mod not in modules:
+            continue
+        env = None
+        for c in calls(f.node):
+            if call_name(c) not in ("np.searchsorted", "numpy.searchsorted") and not (isinstance(c.func, ast.Attribute) and c.func.attr == "searchsorted" and not U(c.func.value).startswith(("np", "torch"))):
+                continue
+            n += 1
+            env = env or single_defs(f.node)
+            hay = c.args[0] if call_name(c) in ("np.searchsorted", "numpy.searchsorted") and c.args else (c.func.value if isinstance(c.func, ast.Attribute) else None)
+            if "sorter" in kwargs(c) or hay is None:
+                ctx.ok(rule, f"{f.site()}::searchsorted#{n}", "a sorter permutation is passed")
+                continue
+
+            def ordered(e, depth=0):
+                e = inline(e, env) if depth == 0 else e
+                if isinstance(e, ast.Call) and call_name(e) in ("np.sort", "np.unique", "sorted", "np.arange", "range"):
+                    return True
+                if isinstance(e, ast.Call) and call_name(e) in ("np.array", "np.asarray") and e.args:
+                    return ordered(e.args[0], depth + 1)
+                if isinstance(e, ast.Subscript):
+                    idx = inline(e.slice, env)
+                    if isinstance(idx, ast.Call) and call_name(idx) == "np.argsort" and idx.args and U(inline(idx.args[0], env)) == U(inline(e.value, env)):
+                        return True
+                if isinstance(e, ast.Call) and isinstance(e.func, ast.Attribute) and e.func.attr == "astype":
+                    return ordered(e.func.value, depth + 1)
+                return False
+            if ordered(hay):
+                ctx.ok(rule, f"{f.site()}::searchsorted#{n}", f"`{U(hay)[:50]}` is ordered by this function before the search")
+            else:
+                ctx.bad(rule, f"{f.site()}::searchsorted#{n}", f"binary search over `{U(hay)[:60]}`, which nothing in this function orders: positions / membership are "
+                                                                 f"only right while the data happens to arrive sorted (ids and chunk contents are stored in arrival order)")
+    return n
